@@ -41,12 +41,12 @@ vars == <<cfg, pv, rv, pc, wire, delivered, invoked, status, errname, rwire, ret
 \* the oracle: what the design promises
 \* nil and empty lists / maps / byte strings are the same "nothing there" (a query string or a header cannot
 \* even express the difference)
-Emptyish(a, v) == v # Absent /\ ((a.nest \in {"elem", "mapkey", "mapval"} /\ v.cn = 0) \/ (a.kind = "bytes" /\ v.n = 0))
+Emptyish(a, v) == v # Absent /\ ((a.nest \in {"elem", "mapkey", "mapval", "elem_nested", "mapval_nested", "mapkey_alias"} /\ v.cn = 0) \/ (a.kind = "bytes" /\ v.n = 0))
 \* (for a required list the generated client sends [] when the caller left it nil: either reading is allowed;
 \* an optional list that is left unset is simply not there, and constraints apply to present values only)
 \* the zero value of a defaulted (non-pointer) field is indistinguishable from "unset" for the caller: either
 \* reading is allowed
-IsContainer(a) == a.nest \in {"elem", "mapkey", "mapval"} \/ a.kind = "bytes"
+IsContainer(a) == a.nest \in {"elem", "mapkey", "mapval", "elem_nested", "mapval_nested", "mapkey_alias"} \/ a.kind = "bytes"
 EmptyOf(a) == IF a.kind = "bytes" THEN V("bytes", 0, "plain", 1) ELSE V(a.kind, 3, "plain", 0)
 AllowedDelivered(a, v) ==
   IF v = Absent THEN (IF a.mode = "default" THEN {DefaultOf(a)} ELSE IF IsContainer(a) /\ a.mode = "required" THEN {Absent, EmptyOf(a)} ELSE {Absent})
@@ -63,8 +63,8 @@ AllowedWhere(a, v) ==
 Satisfies(as, vs) == \A i \in DOMAIN as : \A d \in AllowedDelivered(as[i], vs[i]) : ValidAttr(as[i], d)
 \* and it certainly violates it when every allowed reading of some attribute is invalid
 Violates(as, vs) == \E i \in DOMAIN as : \A d \in AllowedDelivered(as[i], vs[i]) : ~ValidAttr(as[i], d)
-ViolationNames(as, vs) == {ViolationOf(as[i], d) : i \in {j \in DOMAIN as : \A e \in AllowedDelivered(as[j], vs[j]) : ~ValidAttr(as[j], e)},
-                                                   d \in UNION {AllowedDelivered(as[k], vs[k]) : k \in DOMAIN as}}
+\* names a rejection may carry: the violation of any attribute under any of its allowed readings
+ViolationNames(as, vs) == UNION {{ViolationOf(as[i], d) : d \in {e \in AllowedDelivered(as[i], vs[i]) : ~ValidAttr(as[i], e)}} : i \in DOMAIN as}
 
 ---------------------------------------------------------------------------
 \* the mechanism: what the generated code does.  Named deviations = what the real code is known to do
